@@ -6,7 +6,7 @@ import random
 import yaml
 
 from .. import core, yamlapi, sigs
-from ..gen import gdoc, values as V, options as O, boundary, strings as S
+from ..gen import gdoc, values as V, options as O, boundary, strings as S, events as EV
 from ..mon import streams
 from ..ref import bisim
 
@@ -46,6 +46,8 @@ def plan(tier, seed):
     specs.append({'kind': 'limits', 'shard': 0, 'n': 1, 'cext': 'plain'})
     for i in range(2):
         specs.append({'kind': 'dumppos', 'shard': i, 'of': 2, 'n': 1, 'cext': 'plain'})
+    for i in range(2 if q else 4):
+        specs.append({'kind': 'emit_ev', 'shard': i, 'n': 1500 if q else 25000, 'cext': 'plain'})
     if not q:
         for i in range(2):
             specs.append({'kind': 'gdoc', 'shard': 100 + i, 'n': 6000, 'cext': 'asan'})
@@ -151,6 +153,11 @@ def compare(text, ctx, case, expected=None, want_ok=False):
         # the C side can be explained by it (never a Python-side disagreement with the events known by construction)
         if sigs.f14_text(t) and all(b.get('loader') != 'Loader' and 'rejected by the Python parser' not in b['what'] for b in bad):
             mech = 'F14'
+        # F28: the 'implicit' flag of a collection start event that carries the non-specific tag '!' (nothing else differs)
+        if len(bad) == 1 and bad[0]['what'] == 'events differ between back-ends' and pe[0] == ce[0] == 'ok' and len(pe[1]) == len(ce[1]):
+            neutral = lambda evs: [(e[0], e[1], e[2], None) + tuple(e[4:]) if e[0] in ('MappingStart', 'SequenceStart') and e[2] == '!' else e for e in evs]
+            if neutral(pe[1]) == neutral(ce[1]):
+                mech = 'F28'
     for b in bad:
         tt = text.data if isinstance(text, StreamSource) else text
         b['text'] = tt if len(tt) < 3000 else tt[:3000]
@@ -326,6 +333,25 @@ def run(spec, ctx):
             if i < 2:
                 ctx.sample({'kind': 'emit', 'text': text})
             compare(text, ctx, case, want_ok=True)
+        elif k == 'emit_ev':
+            # what the emitters write for arbitrary well-formed event streams (C05's generator: every tag spelling incl.
+            # non-ASCII tags and prefixes, anchors, styles, per-document directives) must be read alike by both back-ends
+            evs = EV.Gen(r, set()).stream()
+            if any(e[0] in ('SC', 'QS', 'MS') and e[2] and any(c in e[2] for c in ',[]{}') for e in evs) or \
+               any(e[0] == 'DS' and e[3] and any(c in v for v in e[3].values() for c in ',[]{}') for e in evs):
+                ctx.stat('emit_ev_skipped_flow_indicator_in_tag')       # known finding F16 (C05 / C12)
+                continue
+            opts = EV.gen_opts(r)
+            dname = r.choice(['Dumper', 'CDumper'])
+            case = {'kind': 'emit_ev', 'spec': evs, 'opts': opts, 'D': dname}
+            ctx.crumb(case)
+            try:
+                text = yaml.emit(EV.build(evs), Dumper=getattr(yaml, dname), **opts)
+            except Exception:
+                ctx.stat('emit_ev_rejected')
+                continue
+            ctx.case(core.h64(text), nontrivial(text if isinstance(text, str) else repr(text)), ['emit_ev:' + dname])
+            compare(text, ctx, case)
         elif k == 'errors':
             error_case(r, ctx, i)
         elif k == 'dumppos':
@@ -382,7 +408,9 @@ def pos_cases(shard, of):
 def replay(case, ctx):
     ctx.case(core.h64(repr(case)), True)
     k = case.get('kind')
-    if k == 'dumppos':
+    if k == 'emit_ev':
+        compare(yaml.emit(EV.build(case['spec']), Dumper=getattr(yaml, case['D']), **case['opts']), ctx, case)
+    elif k == 'dumppos':
         text = yaml.dump(pos_value(case['ch'], case['shape']), Dumper=getattr(yaml, case['D']), **case['opts'])
         compare(text, ctx, case, want_ok=True)
     if k == 'gdoc':
